@@ -186,7 +186,7 @@ def public(ctx):
         partition_oracle(ctx, 'naive_aggregation', n, AggOp, Cpts, base, every=True)
         # lloyd: every node that can reach a centre is assigned
         if n >= 2:
-            for measure in ('unit', 'abs', 'inv'):
+            for measure in ('unit', 'abs', 'inv', 'min', None):
                 np.random.seed(ctx.seed + it)
                 ratio = rng.choice([0.2, 0.5])
                 try:
